@@ -12,6 +12,9 @@ CHECKS = {
  "C07": ("property-based testing (mutation-based generation against an independent reference parser; history invariant over repeated polls) and coverage-guided fuzzing",
          "Mutated valid streams and raw bytes under arbitrary chunking, trailers and injected body errors are fed to tonic's Streaming, which is then polled 6 more times; an independent parser supplies the expected message prefix; invariants: no panic, every poll completes, one error at most, nothing after the terminal event, definite malformations must error.",
          "Content of compressed payloads that a mutation touched is not compared (decompressors may differ on garbage); bounds: <=6 frames, default 4 MiB limit, <=24 chunks.", "4/C07"),
+ "C06": ("property-based testing (boundary-biased proptest + enumerated limit boundaries) with a counting global allocator as an extra observer",
+         "Exact-limit model (accepted iff declared length <= L) checked on tonic's Streaming with declared-but-absent payloads and a Pending body, allocation requests observed by a counting allocator; EncodeBody with an oversized message at every position after batched/flushed earlier messages (prefix-preservation oracle via the independent frame parser), the 2^32+1-byte case, and limit plumbing through generated client and server at L-1, L, L+1.",
+         "Counting allocator sees only allocations made on the polling thread; 4 GiB case relies on lazily committed pages; limits apply to wire payload length.", "4/C06"),
 }
 NOT_YET = {}
 def main():
